@@ -66,11 +66,19 @@ def write_graph(graph, where="home"):
             f.write(mod_source(i, succ))
 
 
+SLIM = ("r", "ra", "ru", "ria", "b", "ba", "bu", "c", "rf", "re", "re2")
+
+
 def commands(graph, targets):
     cmds = [("dp", None)]
+    slim = False
+    if targets and targets[0] == "slim":
+        slim, targets = True, targets[1:]
     for t in targets:
         for c in ("r", "ra", "ru", "ri", "ria", "rp", "b", "ba", "bu", "c",
-                  "p", "pr", "rf"):
+                  "p", "pr", "rf", "re", "re2"):
+            if slim and c not in SLIM:
+                continue
             cmds.append((c, t))
         if graph[t]:
             cmds.append(("via", t))
@@ -94,6 +102,9 @@ def command_text(graph, cmd):
         "p": f"M{t}->_p_{t}",
         "pr": f"M{t}->probe_{t}()",
         "rf": f"def rq{t}() do require M{t}; M{t}->bump_{t}() end; rq{t}()",
+        # issued through interpret(.., environment=E): E persistent / fresh
+        "re": f"require M{t}; M{t}->bump_{t}()",
+        "re2": f"require M{t} as X; X->bump_{t}()",
         "via": f"M{t}->via_{t}_{graph[t][0] if t is not None and graph[t] else 0}()",
     }[c]
 
@@ -153,10 +164,17 @@ class Importer(e4.Explorer):
     def execute(self, state, cmd):
         s = state
         before = set(s.interp.environment.getLocalSymbols())
+        env = None
+        if cmd[0] == "re":
+            if getattr(s, "E", None) is None:
+                s.E = core.ckl.functions.get_none_environment()
+            env = s.E
+        elif cmd[0] == "re2":
+            env = core.ckl.functions.get_none_environment()
         core.set_fuel(100000, 100000)
         try:
             o = core.outcome_of(lambda: s.interp.interpret(
-                command_text(self.graph, cmd), "importer"))
+                command_text(self.graph, cmd), "importer", env))
         finally:
             core.set_fuel(10 ** 12, 10 ** 12)
         after = set(s.interp.environment.getLocalSymbols())
@@ -216,6 +234,10 @@ class Importer(e4.Explorer):
             elif c == "bu":
                 resp = ["value", str(m.bump(t))] \
                     if m.names.get(f"bump_{t}") == ("sym", t) else ERR
+            elif c in ("re", "re2"):
+                # binds in the caller's environment, not in the session
+                m.load(t, [])
+                resp = ["value", str(m.bump(t))]
             elif c == "rf":
                 if f"rq{t}" not in m.names:
                     added.add(f"rq{t}")
@@ -297,7 +319,7 @@ def replay(case, verbose=False):
     graph = tuple(tuple(x) for x in case["graph"])
     write_graph(graph)
     ex = Importer(graph, list(range(len(graph))))
-    hist = [tuple(h) for h in case["history"]]
+    hist = [(h[0], h[1]) for h in case["history"]]
     out = ex.replay_fresh(core.Session, lambda: Model(graph), hist)
     bad = False
     for cmd, exp, obs in out:
@@ -316,9 +338,11 @@ def main(tier, seed):
     g2 = list(all_graphs(2))
     g3 = list(all_graphs(3, self_loops=tier == "thorough"))
     if tier == "quick":
-        plan = [(g, 2, [0, 1]) for g in g2] + \
-               [(g, 2, [0]) for g in g3] + \
-               [(g, 3, [0]) for g in (((1,), (0,)), ((1,), ()))] + \
+        plan = [(g, 2, [0]) for g in g2] + \
+               [(g, 1, [0, 1]) for g in g2] + \
+               [(g, 2, ["slim", 0, 1]) for g in g2[:8]] + \
+               [(g, 2, ["slim", 0]) for g in g3] + \
+               [(g, 3, ["slim", 0]) for g in (((1,), (0,)),)] + \
                [(g, 1, [0, 1]) for g in families()]
     else:
         plan = [(g, 3, [0, 1]) for g in g2] + \
@@ -347,10 +371,12 @@ def main(tier, seed):
               f"on 3 modules (self loops " +
               ("included" if tier == "thorough" else "excluded on 3") +
               f"), chain/cycle/diamond/fan-out/fan-in/tail+cycle families "
-              f"on 4 and 5 modules; importer alphabet = 13 commands per "
+              f"on 4 and 5 modules; importer alphabet = 15 commands per "
               f"target module (6 import forms, calls through module / "
               f"alias / unqualified name, private member, importer-variable "
-              f"probe, require inside a function) + importer definition; "
+              f"probe, require inside a function, require through a "
+              f"persistent and a fresh caller-supplied environment) + "
+              f"importer definition; "
               f"all histories up to the plan's depth, one fork per step"),
         exhaustive=True,
         assumptions=["module files live in $HOME/.ckl/modules of a scratch "
